@@ -193,11 +193,13 @@ func (s *CollapsingLowestDenseStore) Clear() {
 }
 
 func (s *CollapsingLowestDenseStore) Reweight(w float64) error {
-	minIndex := s.minIndex
+	minIndex, maxIndex := s.minIndex, s.maxIndex
 	err := s.DenseStore.Reweight(w)
-	if s.IsEmpty() || s.minIndex != minIndex {
-		// The counts of the lowest bins, which the collapsed bin is one of, may
-		// have underflowed to zero (possibly all the counts).
+	if s.IsEmpty() || s.minIndex != minIndex || s.maxIndex != maxIndex {
+		// Counts have underflowed to zero (possibly all of them) and the index
+		// range has shrunk: the bins no longer cover the whole array from the
+		// collapsed bin on, which the collapsed state assumes, and there is
+		// room again for lower indices.
 		s.isCollapsed = false
 	}
 	return err
